@@ -150,6 +150,60 @@ theorem limit_current_exact {m : MotorP} {i0 imax : Q} (g : m.Good i0 imax) (w i
     field_simp
   rw [this, key]; field_simp
 
+/-! ### the window edges belong to the windows ("once θ ≥ θ_s", "while θ ≤ target", "start ≤ t ≤ start + duration") -/
+
+/-- exactly at the braking start ReachAngularPosition is in force and proposes 1 -/
+theorem reach_at_start (e : CtlEnv) (i : CtlIn) (idx : Nat) (target braking se : Q)
+    (hse : staticError e i.load0 braking = .ok se) (hb : braking ≠ 0)
+    (hx : i.pos.getD idx 0 = target - braking + se) :
+    (Rule.reach exactCtx idx target braking).apply e i = .ok (some (some 1)) := by
+  rw [reach_rule e i idx target braking se hse hb, if_pos (le_of_eq hx.symm), hx]
+  simp
+
+/-- strictly before it the rule is not applicable -/
+theorem reach_before_start (e : CtlEnv) (i : CtlIn) (idx : Nat) (target braking se : Q)
+    (hse : staticError e i.load0 braking = .ok se) (hb : braking ≠ 0)
+    (hx : i.pos.getD idx 0 < target - braking + se) :
+    (Rule.reach exactCtx idx target braking).apply e i = .ok none := by
+  rw [reach_rule e i idx target braking se hse hb, if_neg (not_le.mpr hx)]
+
+/-- exactly at the target the soft start is still in force and proposes 1; beyond it, it is not applicable -/
+theorem ramp_at_target_rule (e : CtlEnv) (i : CtlIn) (idx : Nat) (target mult : Q) (pmin : Option Q)
+    (hpm : mult * pwmMinFn e i.firstLoad0 ≠ 0) (ht : target ≠ 0) (hx : i.pos.getD idx 0 = target) :
+    (Rule.startProp exactCtx idx target mult pmin).apply e i = .ok (some (some 1)) := by
+  rw [ramp_rule e i idx target mult pmin hpm ht, if_pos (le_of_eq hx), hx, ramp_at_target _ _ ht]
+
+theorem ramp_beyond_target (e : CtlEnv) (i : CtlIn) (idx : Nat) (target mult : Q) (pmin : Option Q)
+    (hpm : mult * pwmMinFn e i.firstLoad0 ≠ 0) (ht : target ≠ 0) (hx : target < i.pos.getD idx 0) :
+    (Rule.startProp exactCtx idx target mult pmin).apply e i = .ok none := by
+  rw [ramp_rule e i idx target mult pmin hpm ht, if_neg (not_le.mpr hx)]
+
+/-- exactly at the target StartLimitCurrent is still in force (it proposes something); beyond it, it is not applicable -/
+theorem limit_at_target (e : CtlEnv) (i : CtlIn) (eIdx tIdx : Nat) (target ilim i0 imax : Q)
+    (hc : e.motor.cur = some (i0, imax)) (hx : i.pos.getD eIdx 0 = target) :
+    ∃ p, (Rule.startLimit exactCtx eIdx tIdx target ilim).apply e i = .ok (some p) := by
+  rw [limit_rule e i eIdx tIdx target ilim i0 imax hc, if_pos (le_of_eq hx)]
+  exact ⟨_, rfl⟩
+
+theorem limit_beyond_target (e : CtlEnv) (i : CtlIn) (eIdx tIdx : Nat) (target ilim i0 imax : Q)
+    (hc : e.motor.cur = some (i0, imax)) (hx : target < i.pos.getD eIdx 0) :
+    (Rule.startLimit exactCtx eIdx tIdx target ilim).apply e i = .ok none := by
+  rw [limit_rule e i eIdx tIdx target ilim i0 imax hc, if_neg (not_le.mpr hx)]
+
+/-- both edges of a ConstantPWM window belong to it -/
+theorem constant_at_edges (e : CtlEnv) (i : CtlIn) (start dur value : Q) (hd : 0 ≤ dur)
+    (ht : i.time = start ∨ i.time = start + dur) :
+    (Rule.constant exactCtx exactCtx start dur value).apply e i = .ok (some (some value)) := by
+  rw [constant_window, if_pos]
+  rcases ht with h | h <;> rw [h] <;> constructor <;> linarith
+
+
+/-! non-vacuity of the edge theorems: target 10, braking angle 4, no load: the braking starts exactly at 6 -/
+def exEnv : CtlEnv := { motor := C08.exM, eff := 1, sqrt := fun _ => none }
+def exIn (p : Q) : CtlIn := { time := 0, pos := [p], speed := [0], load0 := 0, firstLoad0 := 0 }
+example : (Rule.reach exactCtx 0 10 4).apply exEnv (exIn 6) = .ok (some (some 1)) := by decide +kernel
+example : (Rule.reach exactCtx 0 10 4).apply exEnv (exIn (6 - 1/1000000)) = .ok none := by decide +kernel
+
 /-! ### non-vacuity: i₀ = 0.1, i_max = 2, i_lim = 1, ω = 0 (standstill): D = e = 1/2, r = 1/2 -/
 example : current C08.exM (1/2) (torque C08.exM 0 (1/2)) = some 1 :=
   limit_current_exact C08.exM_good 0 1 (1/2) (1/2) (by norm_num) (by norm_num) (by norm_num)
